@@ -169,7 +169,25 @@ func (m *vpC33SeqModel) read(t *rapid.T, e, size, dl int) {
 	}
 	vpC33SetDl(m.conn[e].SetReadDeadline, dl)
 	buf := make([]byte, size)
-	n, err := m.conn[e].Read(buf)
+	// every Read of the sequential model has something to return (data, EOF after Close, or a passed
+	// deadline): one that does not return at all is a violation, not a reason to hang the check
+	type rres struct {
+		n   int
+		err error
+	}
+	rch := make(chan rres, 1)
+	go func() {
+		n, err := m.conn[e].Read(buf)
+		rch <- rres{n, err}
+	}()
+	var n int
+	var err error
+	select {
+	case r := <-rch:
+		n, err = r.n, r.err
+	case <-time.After(vpC33Watchdog):
+		t.Fatalf("Read(end %d, buf %d) did not return within %v (pipe closed=%v, %d written bytes unread, deadline kind %d)", e, size, vpC33Watchdog, m.closed, len(m.pend[src]), dl)
+	}
 	m.reads++
 	if m.closed {
 		m.readsAfterClose++
